@@ -65,6 +65,9 @@ def emit(node):
         return node['text']
     if k == 'empty':
         return ''          # an empty YAML document (yields no stage at all)
+    if k == 'blk':
+        # only reachable when a document is shown in flow form (messages, samples): same value as a quoted string
+        return ((node['tag'] + ' ') if node.get('tag') else '') + json.dumps(node['text']) + ' # block scalar ' + node['style'].replace('|', 'literal').replace('>', 'folded')
     tag = node.get('tag')
     pre = (tag + ' ') if tag else ''
     if k == 's':
@@ -78,7 +81,22 @@ def emit(node):
     raise ValueError(k)
 
 
+def _needs_block(node):
+    return node.get('k') == 'map' and any(v.get('k') == 'blk' for _, v in node['items'])
+
+
 def emit_doc(node):
+    if _needs_block(node):
+        # block style at the top level: one "key: value" line per entry, block scalars (| / |- / > / >-) allowed as values
+        lines = [node['tag']] if node.get('tag') else []
+        for k, v in node['items']:
+            if v.get('k') == 'blk':
+                pre = (v['tag'] + ' ') if v.get('tag') else ''
+                lines.append(f'{key_text(k)}: {pre}{v["style"]}')
+                lines.extend('  ' + ln for ln in v['text'].split('\n'))
+            else:
+                lines.append(f'{key_text(k)}: {emit(v)}')
+        return '\n'.join(lines) + '\n'
     return emit(node) + '\n'
 
 
@@ -91,6 +109,8 @@ def to_python(node):
     k = node['k']
     if k == 's':
         return node['v']
+    if k == 'blk':
+        return node['text']
     if k == 'map':
         return {kk: to_python(v) for kk, v in node['items']}
     if k == 'seq':
